@@ -239,10 +239,44 @@ def r3_every_segment(ctx):
     ok = len(ftr) == 1 and _guarded_by(g, ftr[0], 'fd_html') and ftr[0].id > head.id
     yield Ob('x12n_document:x12n_document html.footer() after the loop', ok, ctx.floc(fn), '' if ok else 'footer call moved')
     # the error cursor is drained before gen_seg: a `while True` with next(err_iter) ... break on IterOutOfBounds
-    txt = ast.unparse(fn)
-    ok = 'next(err_iter)' in txt and 'err_node_list.append(err_node)' in txt and 'IterOutOfBounds' in txt
-    require_idiom(ok, 'c19.py:216')
-    yield Ob('x12n_document:x12n_document error cursor drained into err_node_list', ok, ctx.floc(fn), '' if ok else 'cursor loop changed')
+    # in every iteration the error cursor is advanced to its end, every node it passes is collected in the list that
+    # gen_seg receives, and nothing but the cursor's own end-of-data exception ends that collection
+    why = None
+    if not gen:
+        why = 'no gen_seg call'
+    else:
+        c = [x for x in g.walk_exprs(gen[0]) if isinstance(x, ast.Call) and A.call_target(x) == ('html', 'gen_seg')][0]
+        lst = path_of(c.args[2]) if len(c.args) > 2 else None
+        apps = []
+        for x in ast.walk(fn):
+            if isinstance(x, ast.Call) and lst and A.call_target(x) == (lst, 'append') and x.args:
+                v = x.args[0]
+                if isinstance(v, ast.Name):
+                    defs = [s_.value for s_ in ast.walk(fn) if isinstance(s_, ast.Assign) and path_of(s_.targets[0]) == v.id]
+                    v = defs[0] if len(defs) == 1 else v
+                if isinstance(v, ast.Call) and A.call_target(v) == ('err_iter', 'get_cur_node'):
+                    apps.append(x)
+        if len(apps) != 1:
+            why = 'the list passed to gen_seg is not filled from err_iter.get_cur_node() (%d such appends)' % len(apps)
+        else:
+            w = A.enclosing(apps[0], (ast.While,))
+            if w is None:
+                why = 'the cursor is read once, not until its end'
+            elif A.const(w.test) is not True:
+                why = 'the collection loop runs only while `%s`: errors reported while that is false are not collected for this segment' % norm(w.test)
+            elif not any(isinstance(x, ast.Call) and path_of(x.func) == 'next' and x.args and path_of(x.args[0]) == 'err_iter' for x in ast.walk(w)):
+                why = 'the collection loop does not advance the cursor'
+            else:
+                exits = [x for x in ast.walk(w) if isinstance(x, (ast.Break, ast.Return))]
+                ok_exits = all(isinstance(A.enclosing(x, (ast.ExceptHandler,)), ast.ExceptHandler)
+                               and 'IterOutOfBounds' in norm(A.enclosing(x, (ast.ExceptHandler,)).type or '') for x in exits)
+                if not exits or not ok_exits:
+                    why = 'the collection loop can end before the cursor is exhausted'
+                else:
+                    wn = [n for n in g.nodes if n.kind == 'loophead' and n.stmt is w]
+                    if not wn or wn[0].id not in dom[gen[0].id]:
+                        why = 'the collection loop does not run before gen_seg on every path'
+    yield Ob('x12n_document:x12n_document error cursor drained into err_node_list', why is None, ctx.floc(fn), why or '')
 
 
 def _guarded_by(g, node, name):
